@@ -223,6 +223,8 @@ def run_gamma(case, continuum, dissim, precision):
     at = case.get("arg_types") or {}
     if precision is not None and not isinstance(precision, str):
         precision = {"float32": np.float32, "float64": np.float64}.get(at.get("precision"), float)(precision)
+    elif isinstance(precision, str):
+        precision = "".join(list(precision))     # a name read at run time: equal to the literal, not the same object
     off = {"none": None, "zero": 0, "npbool": np.bool_(False)}.get(at.get("off"), False)
     on = {"one": 1, "npbool": np.bool_(True)}.get(at.get("on"), True)
     res = continuum.compute_gamma(dissim, n_samples=case["n_samples"], precision_level=precision,
